@@ -27,15 +27,6 @@ type coordC13 struct{}
 func (coordC13) NeedShadow() bool                                      { return false }
 func (coordC13) CheckTick(*coordWorld, *coordTick) []xstate.Violation { return nil }
 
-func coordOffsetsDiff(a, b map[string]int64) string {
-	for _, tp := range coordAllTPs {
-		if a[tp] != b[tp] {
-			return tp
-		}
-	}
-	return ""
-}
-
 func (coordC13) Check(w *coordWorld, st *coordStep) []xstate.Violation {
 	var out []xstate.Violation
 	r := st.Resp
